@@ -198,6 +198,24 @@ def shard(p):
                     else:
                         q, want = "1 %s^%d to %s^%d" % (bare0["word"], n, e["word"], n), 1 / want
                     checks.append(("prefix-power-grid", [q], (lambda vs, want=want: None if vs[0][0] == want else "is %s, prefix times power gives %s" % (vs[0][0], want))))
+        # one unit name at a power 2..6 against a product of two or more other units of its dimension at the same power, both directions
+        # (1 c^3 to ft^3/min^3): conversion factors multiplied up in fixed-width accumulators overflow only when several non-SI factors
+        # at powers of 3 and more meet (seed C13-j)
+        for _ in range(p["n"] // 25):
+            e1 = V.pick(rng)
+            f2 = V.factors_for_dims(rng, e1["dims"], avoid=(e1["key"],))
+            if not f2 or len(f2) < 2:
+                continue
+            n_ = rng.choice([2, 3, 3, 4, 4, 5, 6])
+            s1_, _d = V.factors_si([(e1, n_)])
+            f2n = [(e, pw * n_) for e, pw in f2]
+            s2_, _d = V.factors_si(f2n)
+            xs, x = mag(rng)
+            if rng.random() < 0.5:
+                q, want = "%s %s to %s^%d" % (xs, G.text(f2n, rng), e1["word"], n_), x * s2_ / s1_
+            else:
+                q, want = "%s %s^%d to %s" % (xs, e1["word"], n_, G.text(f2n, rng)), x * s1_ / s2_
+            checks.append(("power-compound", [q], (lambda vs, want=want: None if vs[0][0] == want else "is %s, the scales give %s" % (vs[0][0], want))))
         # confusable spellings with the SAME dimension (c h = light-hour | ch = chain, m in | min ...): converting one into the other in
         # one query is an ordinary conversion between two different units (seed C03-h: unit texts remembered without their blanks)
         conf = [(a, b, ab) for a, b, ab in G.confusables(V) if R.add_dims(a["dims"], b["dims"]) == ab["dims"]]
@@ -268,7 +286,7 @@ def shard(p):
             acc.evaluations += 1
             acc.count("law_" + law)
             if law != "absolute" or any(c in qs[0] for c in "*/^") or not any(e["bare"] and (" " + e["word"] + " ") in (" " + qs[0] + " ") for e in V.entries[:0]):
-                if any(c in qs[0] for c in "*/^") or law in ("prefix", "power", "product", "pairs", "provenance", "confusable", "prefix-power-grid"):
+                if any(c in qs[0] for c in "*/^") or law in ("prefix", "power", "product", "pairs", "provenance", "confusable", "prefix-power-grid", "power-compound"):
                     acc.nontriv(qs[0])
             vals, bad = [], None
             for q, r in zip(qs, rs):
